@@ -12,12 +12,13 @@ EXPLANATION = ("Deductive: IonSet.__getitem__ (caching, validation, representati
 
 
 def units(tier):
-    return [K.U_IONSET, K.U_EL_GETITEM, K.U_ADD_ISOTOPE, K.U_SYMBOL, K.U_CHANGE_TABLE] + K.U_REDUCE + [K.L_ATOM_IDENTITY, K.U_EL_ISOTOPES] + K.U_TABLE_ISOTOPE
+    return [K.U_IONSET, K.U_EL_GETITEM, K.U_ADD_ISOTOPE, K.U_SYMBOL, K.U_CHANGE_TABLE] + K.U_REDUCE + [K.L_ATOM_IDENTITY, K.U_EL_ISOTOPES] + K.U_TABLE_ISOTOPE + K.U_GET_TABLE + K.U_MAKE
 
 
 def runner_tasks(tier):
     return [{"module": "c08", "task": "identity_sweep", "kind": "eval", "clause": "identity through every route, all objects"},
             {"module": "c08", "task": "invalid_neighbours", "kind": "eval", "clause": "invalid neighbours raise or match"},
+            {"module": "c10", "task": "formula_routing", "name": "pickle routing", "kind": "eval", "clause": "pickle / deepcopy identity in process, in another interpreter, and after the table variable was dropped"},
             {"module": "stateful", "task": "C08", "name": "stateful", "kind": "bounded", "clause": "lookups after the table changed (isotope added after .isotopes was read; key leak between lookups)"}]
 
 
